@@ -4,5 +4,6 @@ CONSTANTS Variant = "ok"
  MinN = 3
  MaxN = 5
  MaxV = 3
+ MaxRedel = 0
 INVARIANTS Emit
 CHECK_DEADLOCK FALSE
